@@ -75,6 +75,10 @@ def expr_of_place(fn, p, depth=0, seen=None):
                 if variant is not None:
                     nm = "%s.%s" % (variant, nm)
                     variant = None
+                # field i of a tuple literal built in this body: the i-th operand
+                if cur.k == "agg" and cur.a == "tuple" and cur.c and nm.isdigit() and int(nm) < len(cur.c):
+                    cur = cur.c[int(nm)]
+                    continue
                 cur = E("field", cur, nm)
                 continue
             if "idx" in pe:
@@ -95,6 +99,11 @@ def expr_of_local(fn, l, depth=0, seen=None):
     if 1 <= l <= fn.argc:
         return E("local", l, fn)
     ds = def_sites(fn, l)
+    if len(ds) > 1:
+        # definitions in blocks that cannot execute (arms of a switch on a constant, e.g. after a helper
+        # was folded in with a literal argument) do not count
+        live = fn.live_blocks
+        ds = [d for d in ds if d[0] in live]
     if len(ds) != 1:
         return E("local", l, fn)
     b, kind, payload = ds[0]
@@ -166,6 +175,7 @@ def atoms_of(e, out=None, depth=0):
 # ---- abstract evaluation -----------------------------------------------------------------------
 
 UNK = None
+ADTS = {}     # crate ADT table of the program being analysed (set by core.Program)
 
 
 class V:
@@ -273,6 +283,8 @@ def evaluate(e, env, depth=0):
         x = evaluate(e.a, env, depth + 1)
         if isinstance(x, tuple) and x[0] in ("res", "opt", "cf"):
             return DISCR[x[1]]
+        if isinstance(x, tuple) and x[0] == "enum":
+            return x[2]
         return UNK
     if k == "agg":
         # the payload of a one-field variant is tracked when it has an abstract value of its own
@@ -290,6 +302,12 @@ def evaluate(e, env, depth=0):
             return ("opt", e.b, pay)
         if e.a == "std::ops::ControlFlow":
             return ("cf", e.b, pay)
+        # a variant of a crate-local field-less enum: its discriminant is its declaration index
+        adt = ADTS.get(e.a) if isinstance(e.a, str) else None
+        if adt is not None and e.b is not None and not e.c:
+            names = [v["name"] for v in adt["variants"]]
+            if e.b in names and len(names) > 1 and all(not v["fields"] for v in adt["variants"]):
+                return ("enum", e.a, names.index(e.b))
         return UNK
     if k == "field":
         # payloads are not tracked, except tuple field .0 of an overflow pair
